@@ -492,6 +492,9 @@ func ruleC02Decomp(e *Env) {
 		if h == nil || h == writes[1].Block() || !h.Dominates(writes[1].Block()) {
 			pathBad, badPos = "the 'M' loop does not lie on every path to the hundreds write", ret
 		}
+		if fn != top {
+			continue // a helper writing into the caller's buffer: what is handed back is the caller's business (C02.buffer)
+		}
 		if len(vals) != 2 {
 			pathBad, badPos = "unexpected result count", ret
 			continue
@@ -511,7 +514,7 @@ func ruleC02Decomp(e *Env) {
 		}
 	}
 	switch {
-	case zeroBlock == nil:
+	case zeroBlock == nil && fn == top: // (in a helper that receives a non-zero number every return comes after the writes)
 		e.S.Unk(rule, site, "single path", "no `n == 0` exit found: which returns are the zero case is not decided", e.Pos(fn))
 	case nret == 0:
 		e.S.Unk(rule, site, "single path", "no return after the writes found", e.Pos(fn))
